@@ -103,7 +103,7 @@ Proof.
 Qed.
 
 (* ------------------------------------------------------------------ the checked states satisfy the machine invariant *)
-From DC Require Import DCPreludeFacts SinvFacts ConcFacts ConcTheorems TxnFacts.
+From DC Require Import DCPreludeFacts SinvFacts ConcFacts ConcTheorems TxnFacts TxnQueue TxnQueueFacts.
 
 Lemma compile_op_ok c retry o now pg m : ConcRun.compile c retry o now pg = Some m -> op_ok refs Winv m.
 Proof.
@@ -116,6 +116,9 @@ Proof.
   - apply rop_ok_contains.
   - apply body_ok_pop.
   - apply body_ok_delete.
+  - apply body_ok_push.
+  - apply body_ok_pull.
+  - apply body_ok_peek.
 Qed.
 
 Lemma compile_all_ok c : forall l ms, compile_all c l = Some ms -> Forall (op_ok refs Winv) ms.
